@@ -710,10 +710,22 @@ func Generate(tier string) []*Shape {
 	dsts := Dests(true)
 	simple := Dests(false)
 
+	// The thorough tier enumerates sources of up to 3 leaves: 11.5k programs when every
+	// source meets every destination. That does not finish within an hour per property,
+	// so classes (1)-(3) keep one combination in six there (a fixed stride, so the set
+	// is the same on every run); the registered bound is that subset.
+	pick := 0
+	keep := func() bool {
+		pick++
+		return tier != "thorough" || pick%6 == 0
+	}
 	// (1) every source × the simple destinations, send $m
 	for _, sm := range srcs {
 		for di, dm := range simple {
 			if tier != "thorough" && di >= 4 {
+				continue
+			}
+			if !keep() {
 				continue
 			}
 			g := &varGen{}
@@ -728,6 +740,9 @@ func Generate(tier string) []*Shape {
 			continue
 		}
 		for _, dm := range dsts[len(simple):] {
+			if !keep() {
+				continue
+			}
 			g := &varGen{}
 			s := sm(g)
 			d, pv := dm(g)
@@ -737,6 +752,9 @@ func Generate(tier string) []*Shape {
 	// (3) send-all
 	for i, sm := range srcs {
 		if tier != "thorough" && i%3 != 0 {
+			continue
+		}
+		if !keep() {
 			continue
 		}
 		g := &varGen{}
